@@ -51,6 +51,8 @@ def showDec (o : CborDec.RunOut) : String :=
 def canonTok (t : Tok) : Tok :=
   match t.body with
   | .int i => if i ≥ 0 then { t with body := .uint i.toNat } else t
+  | .arrOpen l => if l < 0 then { t with body := .arrOpen (-1) } else t
+  | .mapOpen l => if l < 0 then { t with body := .mapOpen (-1) } else t
   | _ => t
 
 def tagsOk (ts : List Tok) : Bool := ts.all fun t => match t.tag with | some n => n ≥ 0 | none => true
@@ -91,6 +93,35 @@ def handle (parts : List String) : String :=
         | none => "E"
       "M=" ++ showDec o ++ " n=" ++ toString o.steps ++ " a=" ++ toString o.alloc ++ " S=" ++ spec
     | none => "bad-op"
+  | ["jsondec", hx] =>
+    match parseHex hx with
+    | some bs =>
+      let o := JsonDec.decode (Rd.ofBytes bs)
+      let spec := match Spec.Json.parse bs with
+        | some (v, rest) => showToks v.flatten ++ "/" ++ toString rest.length ++ "/ok"
+        | none => "E"
+      "M=" ++ showToks o.toks ++ "/" ++ toString o.rd.sourceLeft ++ "/" ++
+        (match o.res with | .ok _ => "ok" | .error e => errClass e) ++
+        " n=" ++ toString o.steps ++ " pb=" ++ toString o.rd.pb ++ " S=" ++ spec
+    | none => "bad-op"
+  | ["jsonenc", ln, ind, toks] =>
+    match parseToks toks, parseHex ind with
+    | some ts, some indent =>
+      let line : Option Bytes := if ln == "nil" then none else parseHex ln
+      let cfg : JsonEnc.Cfg := ⟨line, indent⟩
+      let (fl, ws) := runEnc (JsonEnc.step cfg FloatText.jsonFloat) JsonEnc.init ts
+      let bytes := ws.flatten
+      let rt := if fl.endsWith "D" then
+          let o := JsonDec.decode (Rd.ofBytes bytes)
+          showToks o.toks ++ "/" ++ toString o.rd.sourceLeft ++ "/" ++ (match o.res with | .ok _ => "ok" | .error e => errClass e)
+        else "-"
+      let wf := recFlags .json [] ts == (List.replicate (ts.length - 1) Flag.cont ++ [Flag.done])
+      let spec := if wf then
+          " SR=" ++ showToks (ts.map Spec.Json.retypeTok) ++ "/0/ok" ++
+          " SC=" ++ hexOrDash (runEnc (JsonEnc.step ⟨none, []⟩ FloatText.jsonFloat) JsonEnc.init ts).2.flatten
+        else ""
+      "M=" ++ fl ++ " W=" ++ showWrites ws ++ " R=" ++ rt ++ spec
+    | _, _ => "bad-op"
   | _ => "bad-op"
 
 partial def loop (hin : IO.FS.Stream) (hout : IO.FS.Stream) : IO Unit := do
